@@ -50,6 +50,8 @@ type c18Case struct {
 var psTypes = []string{
 	"int", "string", "bool", "float64", "[]string", "[]byte", "map[string]int", "*int", "*string", "*third.Inner", "third.Kind", "third.Inner", "error", "third.Iface", "any",
 	"[]third.Inner", "map[string]third.Kind", "[2]int", "int64", "uint8",
+	// containers of defined scalar types (foreign and of the origin package itself), nested containers
+	"third.Flag", "[]third.Flag", "map[string][]third.Flag", "*[]third.Flag", "[]Flag8", "map[Label]Flag8", "Label", "[]*third.Inner", "map[third.Kind]*third.Inner", "[][]byte", "[3]third.Flag",
 }
 
 var psTags = []string{
@@ -115,7 +117,7 @@ func genC18(t *rapid.T) c18Case {
 
 func (c c18Case) originSource() string {
 	b := &strings.Builder{}
-	b.WriteString("package origin\n\nimport \"m/third\"\n\nvar _ third.Kind\n")
+	b.WriteString("package origin\n\nimport \"m/third\"\n\nvar _ third.Kind\n\ntype Flag8 uint8\n\ntype Label string\n")
 	for _, o := range c.Origins {
 		fmt.Fprintf(b, "\ntype %s struct {\n", o.Name)
 		for _, f := range o.Fields {
@@ -136,6 +138,8 @@ func (c c18Case) originSource() string {
 const thirdSource = `package third
 
 type Kind string
+
+type Flag uint8
 
 type Inner struct {
 	A int
@@ -417,6 +421,9 @@ func c18Features(c c18Case) []string {
 		for _, f := range o.Fields {
 			if strings.Contains(f.Type, "third.") {
 				fs["foreign-typed-field"] = true
+			}
+			if strings.Contains(f.Type, "Flag") {
+				fs["container-of-defined-uint8"] = true
 			}
 			if strings.ContainsAny(f.Tag, ".:") && f.Tag != "" {
 				fs["tag-with-dot-or-colon"] = true
